@@ -8,6 +8,7 @@ use std::io::ErrorKind;
 
 const INITIAL_RESPONSE_HEADERS_BUFFER_SIZE: usize = 32;
 const MAX_RESPONSE_HEADERS_NUM: usize = 128;
+const MAX_RESPONSE_HEADERS_SIZE: usize = 64 * 1024;
 const ENCODED_CHUNK_SUFFIX: &str = "\r\n";
 
 /// Wrap the `stream` with a non-CONNECT request into a wrapper which forwards the request
@@ -651,6 +652,12 @@ impl SinkWaitingResponse {
                     return Ok((Some(self.convert_response(response)?), data.split_off(pos)));
                 }
                 Ok(httparse::Status::Partial) => {
+                    if data.len() > MAX_RESPONSE_HEADERS_SIZE {
+                        return Err(io::Error::new(
+                            ErrorKind::Other,
+                            "Response headers are too large",
+                        ));
+                    }
                     self.headers_buffer = BytesMut::from(data.as_ref());
                     return Ok((None, Bytes::new()));
                 }
